@@ -26,6 +26,7 @@ def one(sid):
         else: res.append(f'{prop}:exit{rs[-1]["exit"]}')
     return sid, f'demo {ev.get("demo_without", [None])[0]}/{ev.get("demo_with", [None])[0]} ' + ' '.join(res)
 
-with ThreadPoolExecutor(4) as ex:
+import os
+with ThreadPoolExecutor(int(os.environ.get('REEVAL_WORKERS', '4'))) as ex:
     for sid, line in ex.map(one, ids):
         print(sid, line, flush=True)
